@@ -4,10 +4,10 @@ import KalignModel.Lemmas.CmpMsa
 namespace Kalign
 open List
 
-/-- the hypothesis "uniquely named": the first 256 bytes of the names are pairwise distinct
-(that is what `strncmp(·,·,256)` can see) and names are C strings -/
+/-- the hypothesis "uniquely named": the names are pairwise distinct and are C strings (the
+comparators use `strcmp` on the full names since commit 0022995 of the C sources) -/
 structure NamesOK (A : List NRow) : Prop where
-  distinct : (A.map fun x => x.name.take msaNameLen).Nodup
+  distinct : (A.map fun x => x.name).Nodup
   nulfree : ∀ x ∈ A, NulFree x.name
 
 theorem NamesOK.names_nodup {A : List NRow} (h : NamesOK A) : (A.map (·.name)).Nodup := by
@@ -22,30 +22,30 @@ theorem NamesOK.perm {A A' : List NRow} (h : NamesOK A) (hp : A.Perm A') : Names
 /-! ## sorting by name is canonical -/
 
 theorem mergeSort_byName_perm {α : Type} (name : α → Name) {l l' : List α} (hp : l.Perm l')
-    (hnd : (l.map fun x => (name x).take msaNameLen).Nodup) (hnul : ∀ x ∈ l, NulFree (name x)) :
-    l.mergeSort (fun a b => decide (strncmp msaNameLen (name a) (name b) < 0))
-      = l'.mergeSort (fun a b => decide (strncmp msaNameLen (name a) (name b) < 0)) := by
+    (hnd : (l.map fun x => name x).Nodup) (hnul : ∀ x ∈ l, NulFree (name x)) :
+    l.mergeSort (fun a b => decide (strcmp (name a) (name b) < 0))
+      = l'.mergeSort (fun a b => decide (strcmp (name a) (name b) < 0)) := by
   apply mergeSort_eq_of_perm (fun x => NulFree (name x)) _ _ hp hnul
   · rw [Nodup, pairwise_map] at hnd
     refine Pairwise.imp_of_mem ?_ hnd
     intro a b ha hb hne
     simp only [Bool.or_eq_true, decide_eq_true_eq]
-    exact strncmp_total _ _ _ (hnul a ha) (hnul b hb) hne
+    exact strcmp_total _ _ (hnul a ha) (hnul b hb) hne
   · intro a b c _ _ _ h1 h2
     simp only [decide_eq_true_eq] at h1 h2 ⊢
-    exact strncmp_trans_lt _ _ _ _ h1 h2
+    exact strcmp_trans_lt _ _ _ h1 h2
   · intro a b _ _ h1 h2
     simp only [decide_eq_true_eq] at h1 h2
-    have := strncmp_swap msaNameLen (name a) (name b)
+    have := strcmp_swap (name a) (name b)
     omega
 
 theorem leBoth_eq_leByName (a b : NRow) (ha : NulFree a.name) (hb : NulFree b.name)
-    (h : a = b ∨ a.name.take msaNameLen ≠ b.name.take msaNameLen) : leBoth a b = leByName a b := by
+    (h : a = b ∨ a.name ≠ b.name) : leBoth a b = leByName a b := by
   unfold leBoth leByName cmpBoth
   rcases h with rfl | hne
-  · simp [strncmp_self]
-  · have h0 : strncmp msaNameLen a.name b.name ≠ 0 := fun e => hne ((strncmp_eq_zero_iff _ _ _ ha hb).mp e)
-    by_cases hlt : strncmp msaNameLen a.name b.name < 0
+  · simp [strcmp_self]
+  · have h0 : strcmp a.name b.name ≠ 0 := fun e => hne ((strcmp_eq_zero_iff _ _ ha hb).mp e)
+    by_cases hlt : strcmp a.name b.name < 0
     · simp [hlt]
     · simp [hlt, h0]
 
@@ -53,7 +53,7 @@ theorem sortMsa_eq_byName {A : List NRow} (h : NamesOK A) : sortMsa A = A.mergeS
   have := map_mergeSort (r := leBoth) (s := leByName) (f := id) (l := A) (by
     intro a ha b hb
     apply leBoth_eq_leByName a b (h.nulfree a ha) (h.nulfree b hb)
-    by_cases e : a.name.take msaNameLen = b.name.take msaNameLen
+    by_cases e : a.name = b.name
     · exact Or.inl (eq_of_nodup_map h.distinct ha hb e)
     · exact Or.inr e)
   simpa [sortMsa] using this
@@ -67,7 +67,7 @@ theorem sortMsa_perm_self (A : List NRow) : (sortMsa A).Perm A := mergeSort_perm
 /-! ## the duplicate check passes on uniquely named alignments -/
 
 theorem adjDup_false {L : List NRow}
-    (h : L.Pairwise fun a b => strncmp msaNameLen a.name b.name ≠ 0) : adjDup L = false := by
+    (h : L.Pairwise fun a b => strcmp a.name b.name ≠ 0) : adjDup L = false := by
   induction L with
   | nil => rfl
   | cons a L ih =>
@@ -87,7 +87,7 @@ theorem checkMsaStrict_of_namesOK {A : List NRow} (h : NamesOK A) : checkMsaStri
   rw [Nodup, pairwise_map] at hd
   refine Pairwise.imp_of_mem ?_ hd
   intro a b ha hb hne e
-  exact hne ((strncmp_eq_zero_iff _ _ _ (h'.nulfree a ha) (h'.nulfree b hb)).mp e)
+  exact hne ((strcmp_eq_zero_iff _ _ (h'.nulfree a ha) (h'.nulfree b hb)).mp e)
 
 theorem checkMsaStrict_perm {A A' : List NRow} (hp : A.Perm A') (h : NamesOK A) :
     checkMsaStrict A' = checkMsaStrict A := by
@@ -100,7 +100,7 @@ theorem nres_eq_length_residuesOf (r : Row) : nres r = (residuesOf r).length := 
 
 theorem namedSeqs_sortMsa {A : List NRow} (h : NamesOK A) :
     namedSeqs (sortMsa A) = (namedSeqs A).mergeSort
-      (fun p q => decide (strncmp msaNameLen p.1 q.1 < 0)) := by
+      (fun p q => decide (strcmp p.1 q.1 < 0)) := by
   rw [sortMsa_eq_byName h]
   unfold namedSeqs
   exact map_mergeSort (fun a _ b _ => rfl)
@@ -108,9 +108,9 @@ theorem namedSeqs_sortMsa {A : List NRow} (h : NamesOK A) :
 theorem namesOK_of_namedSeqs_perm {R T : List NRow} (h : NamesOK R)
     (hsame : (namedSeqs R).Perm (namedSeqs T)) : NamesOK T where
   distinct := by
-    have h1 : (namedSeqs R).map (fun p => p.1.take msaNameLen) = R.map fun x => x.name.take msaNameLen := by
+    have h1 : (namedSeqs R).map (fun p => p.1) = R.map fun x => x.name := by
       simp [namedSeqs, map_map, Function.comp_def]
-    have h2 : (namedSeqs T).map (fun p => p.1.take msaNameLen) = T.map fun x => x.name.take msaNameLen := by
+    have h2 : (namedSeqs T).map (fun p => p.1) = T.map fun x => x.name := by
       simp [namedSeqs, map_map, Function.comp_def]
     rw [← h2]
     refine ((hsame.map _).nodup_iff).mp ?_
@@ -128,7 +128,7 @@ theorem namedSeqs_sorted_eq {R T : List NRow} (h : NamesOK R)
     namedSeqs (sortMsa R) = namedSeqs (sortMsa T) := by
   rw [namedSeqs_sortMsa h, namedSeqs_sortMsa (namesOK_of_namedSeqs_perm h hsame)]
   apply mergeSort_byName_perm (fun p : Name × List Char => p.1) hsame
-  · have : (namedSeqs R).map (fun p => p.1.take msaNameLen) = R.map fun x => x.name.take msaNameLen := by
+  · have : (namedSeqs R).map (fun p => p.1) = R.map fun x => x.name := by
       simp [namedSeqs, map_map, Function.comp_def]
     rw [this]; exact h.distinct
   · intro p hp
